@@ -4,6 +4,6 @@ export GOFLAGS=-mod=mod GOPROXY=off GOSUMDB=off GOTOOLCHAIN=local
 re=${1:-TestFinding_}
 mkdir -p /verif/.work
 cat > /verif/.work/ov_probes.json <<EOT
-{"Replace": {"/repo/services/termincommittee/test/zz_findings_test.go": "/verif/findings/zz_findings_test.go.txt", "/repo/zz_findings_root_test.go": "/verif/findings/zz_findings_root_test.go.txt"}}
+{"Replace": {"/repo/services/termincommittee/test/zz_findings_test.go": "/verif/findings/zz_findings_test.go.txt", "/repo/zz_findings_root_test.go": "/verif/findings/zz_findings_root_test.go.txt", "/repo/services/termincommittee/test/zz_f14_test.go": "/verif/findings/F14_noncanonical_vote_test.go.txt"}}
 EOT
 cd /repo && go test -overlay /verif/.work/ov_probes.json -vet=off -count=1 -timeout 120s -run "$re" ./services/termincommittee/test/ . 2>&1 | grep -E "^(--- |ok|FAIL|PASS|panic)" | grep -v "^--- PASS" | head -40
